@@ -58,6 +58,8 @@ func (o lifeOp) term() string {
 	switch o.Op {
 	case "start":
 		return "OStart " + behTerm[o.Beh]
+	case "run":
+		return "ORun " + behTerm[o.Beh]
 	case "stop":
 		return "OStop"
 	case "wait":
@@ -77,6 +79,7 @@ type lifeObs struct {
 	Started string `json:"started"` // true | false | blocked
 	Closes  int    `json:"closes"`
 	Waiting int    `json:"waiting"`
+	Running int    `json:"running"` // Run calls still blocked
 	Err     string `json:"err,omitempty"`
 	Ms      int64  `json:"ms"`
 }
@@ -84,7 +87,7 @@ type lifeObs struct {
 func (o lifeObs) term() string {
 	k := map[string]string{"ok": "KOk", "err": "KErr", "returned": "KReturned", "blocked": "KBlocked"}[o.Class]
 	st := map[string]string{"true": "(Some true)", "false": "(Some false)", "blocked": "None"}[o.Started]
-	return fmt.Sprintf("{| o_class := %s; o_started := %s; o_closes := %s; o_waiting := %s |}", k, st, coqfmt.Nat(o.Closes), coqfmt.Nat(o.Waiting))
+	return fmt.Sprintf("{| o_class := %s; o_started := %s; o_closes := %s; o_waiting := %s; o_running := %s |}", k, st, coqfmt.Nat(o.Closes), coqfmt.Nat(o.Waiting), coqfmt.Nat(o.Running))
 }
 
 type lifeRaw struct {
@@ -133,19 +136,23 @@ func (r *rig) setBehaviour2(b string) {
 
 // quiesce waits until the close count, IsStarted and the number of blocked waiters have not
 // changed for tm.quiet (IsStarted is not asked when the lock is known to be held for ever).
-func (r *rig) quiesce(tm lifeTiming, waits []*call, locked bool) (started string, closes, waiting int) {
+func (r *rig) quiesce(tm lifeTiming, waits, runs []*call, locked bool) (started string, closes, waiting, running int) {
+	pendingOf := func(l []*call) int {
+		n := 0
+		for _, c := range l {
+			if !c.returned() {
+				n++
+			}
+		}
+		return n
+	}
+	// blocked Wait and Run calls are counted in one number for the stability test and separately at the end
 	snap := func() (string, int, int) {
 		st := "blocked"
 		if !locked {
 			st = r.startedNow(tm.block)
 		}
-		w := 0
-		for _, c := range waits {
-			if !c.returned() {
-				w++
-			}
-		}
-		return st, int(r.closes.Load()), w
+		return st, int(r.closes.Load()), pendingOf(waits)*1000 + pendingOf(runs)
 	}
 	// settled = unchanged for tm.quiet AND over at least 25 consecutive samples (a stall of the whole
 	// process lets wall-clock time pass without anything having had a chance to run)
@@ -164,7 +171,7 @@ func (r *rig) quiesce(tm lifeTiming, waits []*call, locked bool) (started string
 			break
 		}
 	}
-	return ls, lc, lw
+	return ls, lc, lw / 1000, lw % 1000
 }
 
 // stallWatch notices when the whole process did not get to run for a while (CPU contention, cgroup
@@ -221,7 +228,7 @@ func sameObs(a, b []lifeObs) bool {
 		return false
 	}
 	for i := range a {
-		if a[i].Class != b[i].Class || a[i].Started != b[i].Started || a[i].Closes != b[i].Closes || a[i].Waiting != b[i].Waiting {
+		if a[i].Class != b[i].Class || a[i].Started != b[i].Started || a[i].Closes != b[i].Closes || a[i].Waiting != b[i].Waiting || a[i].Running != b[i].Running {
 			return false
 		}
 	}
@@ -282,7 +289,7 @@ func runLife(ops []lifeOp, tm lifeTiming) ([]lifeObs, error) {
 	defer r.close()
 	r.blockBound = tm.block
 	var obs []lifeObs
-	var waits []*call
+	var waits, runs []*call
 	ctx := context.Background()
 	start := func(b string) *call {
 		r.setBehaviour2(b)
@@ -327,6 +334,33 @@ func runLife(ops []lifeOp, tm lifeTiming) ([]lifeObs, error) {
 					waitC(s.closed, tm.block)
 				}
 			}
+		case "run":
+			// Run in a goroutine of its own: it either returns (its Start failed, or the session is over
+			// already) or stays blocked with the stub started; a Start that does not finish = blocked
+			r.setBehaviour2(op.Beh)
+			before := r.startedNow(tm.block) // on a started stub Run has to come back with "already started"
+			c := launch(func() error { return r.st.Run(ctx) })
+			runs = append(runs, c)
+			deadline := time.Now().Add(tm.block)
+			for {
+				if c.returned() {
+					if c.err != nil {
+						o.Class, o.Err = "err", c.err.Error()
+					} else {
+						o.Class = "ok"
+					}
+					break
+				}
+				if before == "false" && r.startedNow(100*time.Millisecond) == "true" {
+					o.Class = "ok"
+					break
+				}
+				if time.Now().After(deadline) {
+					o.Class, locked = "blocked", true
+					break
+				}
+				time.Sleep(2 * time.Millisecond)
+			}
 		case "stop":
 			c := launch(func() error { r.st.Stop(); return nil })
 			if !c.wait(tm.block) {
@@ -347,7 +381,7 @@ func runLife(ops []lifeOp, tm lifeTiming) ([]lifeObs, error) {
 			return nil, fmt.Errorf("unknown op %q", op.Op)
 		}
 		o.Ms = time.Since(t0).Milliseconds()
-		o.Started, o.Closes, o.Waiting = r.quiesce(tm, waits, locked)
+		o.Started, o.Closes, o.Waiting, o.Running = r.quiesce(tm, waits, runs, locked)
 		if o.Started == "blocked" && o.Class != "blocked" {
 			// the operation returned but the lock is held: report it as it is, the sequence ends here
 			locked = true
@@ -365,22 +399,25 @@ func runLife(ops []lifeOp, tm lifeTiming) ([]lifeObs, error) {
 // three recorded defects of the pinned code, named.
 func judge(ops []lifeOp, obs []lifeObs) (deviation, slug string) {
 	started := false
-	closes, waiting := 0, 0 // close call-backs due so far (one per client created and closed), Wait calls that must still block
-	deadConn := ""          // the behaviour of an earlier Start that failed after the connection was made
+	closes, waiting, running := 0, 0, 0 // close call-backs due so far (one per client created and closed), Wait / Run calls that must still block
+	deadConn := ""                      // the behaviour of an earlier Start that failed after the connection was made
 	for i, o := range obs {
 		op := ops[i]
 		wantClass, wantStarted := "returned", started
 		endSession := func() {
 			if started {
 				closes++
-				waiting = 0
+				waiting, running = 0, 0
 			}
 			started = false
 		}
 		switch op.Op {
-		case "start", "stopstart", "startstart":
+		case "start", "stopstart", "startstart", "run":
 			if op.Op == "stopstart" {
 				endSession()
+			}
+			if op.Op == "run" && !started && op.Beh == bHealthy {
+				running++ // Run stays blocked as long as the session is up
 			}
 			if op.Op == "startstart" && !started {
 				// the first Start must fail and leave the stub idle; its client (if one was made) is closed
@@ -421,16 +458,16 @@ func judge(ops []lifeOp, obs []lifeObs) (deviation, slug string) {
 		if wantStarted {
 			ws = "true"
 		}
-		if o.Class == wantClass && o.Started == ws && o.Closes == closes && o.Waiting == waiting {
+		if o.Class == wantClass && o.Started == ws && o.Closes == closes && o.Waiting == waiting && o.Running == running {
 			started = wantStarted
-			if (op.Op == "start" || op.Op == "stopstart" || op.Op == "startstart") && o.Class == "err" && op.Beh != bUnreachable && op.Beh != bHealthy && op.Beh != bDropInCfg {
+			if (op.Op == "start" || op.Op == "run" || op.Op == "stopstart" || op.Op == "startstart") && o.Class == "err" && op.Beh != bUnreachable && op.Beh != bHealthy && op.Beh != bDropInCfg {
 				deadConn = op.Beh
 			}
 			continue
 		}
-		deviation = fmt.Sprintf("operation %d %s: observed class=%s started=%s close call-backs=%d blocked waiters=%d, the property demands class=%s started=%s close call-backs=%d blocked waiters=%d",
-			i, op, o.Class, o.Started, o.Closes, o.Waiting, wantClass, ws, closes, waiting)
-		isStart := op.Op == "start" || op.Op == "stopstart" || op.Op == "startstart"
+		deviation = fmt.Sprintf("operation %d %s: observed class=%s started=%s close call-backs=%d blocked Wait calls=%d blocked Run calls=%d, the property demands class=%s started=%s close call-backs=%d blocked Wait calls=%d blocked Run calls=%d",
+			i, op, o.Class, o.Started, o.Closes, o.Waiting, o.Running, wantClass, ws, closes, waiting, running)
+		isStart := op.Op == "start" || op.Op == "run" || op.Op == "stopstart" || op.Op == "startstart"
 		switch {
 		case o.Class == "blocked" && op.Beh == bDropAfterReg:
 			slug = "start-blocks-on-drop-before-configure"
@@ -531,12 +568,32 @@ func lifeSequences(c *hx.Ctx) [][]lifeOp {
 			add("startstart(" + f + ",healthy) stop S")
 		}
 	}
+	// Run in a goroutine of its own, the session ended from another one (Stop) or by the runtime end (lose):
+	// Run must return, Stop must return, the close call-back runs once, Wait calls return
+	for i := 0; i < c.Pick(3, 8); i++ {
+		add("run(healthy) stop")
+		add("run(healthy) lose")
+		add("run(healthy) wait stop S")
+		add("run(healthy) wait lose wait S stop")
+	}
+	add("run(healthy) stop run(healthy) lose run(healthy) stop")
+	add("S run(healthy) stop")
+	add("run(healthy) run(healthy) S stop")
+	add("run(healthy) stopstart(healthy) stop")
+	add("run(healthy) stop startstart(" + bCfgError + ",healthy) lose")
+	for _, f := range faults {
+		if f != bDropInCfg {
+			add("run(" + f + ")")
+			add("run(" + f + ") run(healthy) wait stop")
+			add("run(healthy) lose run(" + f + ") S stop")
+		}
+	}
 	add("startstart(unreachable,healthy) stop")
 	add("S lose startstart(" + bCfgError + "," + bRefuse + ") S")
 	// thorough: random longer sequences
 	if !c.Quick() {
 		rnd := c.Rand("stublife")
-		letters := []string{"S", "S", "stop", "wait", "lose", "stopstart(healthy)", "startstart(" + bCfgError + ",healthy)", "startstart(" + bRefuse + ",healthy)"}
+		letters := []string{"S", "S", "run(healthy)", "run(healthy)", "run(" + bRefuse + ")", "stop", "wait", "lose", "stopstart(healthy)", "startstart(" + bCfgError + ",healthy)", "startstart(" + bRefuse + ",healthy)"}
 		for _, f := range faults {
 			if f != bDropAfterReg {
 				letters = append(letters, "start("+f+")")
@@ -641,7 +698,7 @@ func driveLife(c *hx.Ctx) error {
 			if o.Beh0 != "" && o.Beh0 != bHealthy {
 				faults++
 			}
-			if (j > 0 && (o.Op == "start" || o.Op == "stopstart")) || o.Op == "startstart" {
+			if (j > 0 && (o.Op == "start" || o.Op == "stopstart" || o.Op == "run")) || o.Op == "startstart" {
 				restarts++
 			}
 		}
@@ -667,10 +724,12 @@ func driveLife(c *hx.Ctx) error {
 		"healthy restart(s), f after Stop / after a loss (also followed by Stop and a healthy Start), f in an immediate restart; Stop-then-immediate-Start repeated (the outcome depends on the " +
 		"lock race; both schedules are in the model's prediction set); a Start failing after its client exists (refused, dropped in / after " +
 		"registration, configuration error) followed AT ONCE by a healthy Start, alone, after Stop, and followed by Stop and Start, repeated: " +
-		"the failed attempt's late close notification must not close the new session; thorough: 150 seeded sequences of length 5-8 over all operations. Observed per " +
+		"the failed attempt's late close notification must not close the new session; Run() in a goroutine of its own (healthy runtime, or any " +
+		"fault), then Stop from another goroutine or a drop by the runtime end, with Wait calls in between and restarts after: Run must have " +
+		"returned, Stop must return (a hang is the observation 'blocked' after the bound, never a driver abort), one close call-back; thorough: 150 seeded sequences of length 5-8 over all operations. Observed per " +
 		"operation after everything settled (nothing changed for 250/400 ms and 25 consecutive samples): class ok/err/returned/blocked (blocked = not returned after 2 s quick, " +
 		"5 s thorough = >= 5x the longest legitimate time-out; accepted only if a second run with twice the bound observes the same; a sequence that " +
-		"overlaps a stall of the whole process - a 10 ms heartbeat late by more than 200 ms - is run again), IsStarted, number of close call-backs, number of Wait calls still blocked. " +
+		"overlaps a stall of the whole process - a 10 ms heartbeat late by more than 200 ms - is run again), IsStarted, number of close call-backs, number of Wait calls and of Run calls still blocked. " +
 		"corr: the observation sequence is one the LTS under the switches of the current code predicts; holds: it is one the LTS with all three " +
 		"defects off predicts. non-trivial: the sequence contains a fault or a restart."
 	return nil
